@@ -23,7 +23,18 @@ func dumpValue(v reflect.Value, depth int) any {
 		return nil
 	}
 	switch v.Kind() {
-	case reflect.Interface, reflect.Pointer:
+	case reflect.Interface:
+		if v.IsNil() {
+			return nil
+		}
+		e := v.Elem()
+		// a named non-struct type behind an interface (ir.LiteralI32, ir.SwitchValueU32, ...)
+		// would lose its identity: wrap it as {"_t": name, "v": value}
+		if k := e.Kind(); k != reflect.Struct && k != reflect.Pointer && e.Type().PkgPath() != "" {
+			return map[string]any{"_t": e.Type().Name(), "v": dumpValue(e, depth+1)}
+		}
+		return dumpValue(e, depth+1)
+	case reflect.Pointer:
 		if v.IsNil() {
 			return nil
 		}
